@@ -337,6 +337,69 @@ def gen_docs(rng, tier):
         yield {"particle": p, "words": [G.sample_word(rng, p) for _ in range(5)], "types": types, "configs": configs}
 
 
+# ---- named model groups referenced from several types with different occurrence ranges
+def oracle_groups(a):
+    """every reference of a named group has its own occurrence range and ancestry: documents valid
+    for the type of r<i> parse into the generated class R<i> and come back with the same children"""
+    from lxml import etree
+    from xsdata.formats.dataclass.context import XmlContext
+    from xsdata.formats.dataclass.parsers import XmlParser
+    from xsdata.formats.dataclass.parsers.config import ParserConfig
+    from xsdata.formats.dataclass.serializers import XmlSerializer
+
+    group, refs, types = a["group"], a["refs"], a.get("types")
+    xsd = G.group_refs_xsd(group, refs, types=types)
+    try:
+        schema = etree.XMLSchema(etree.fromstring(xsd.encode()))
+    except etree.XMLSchemaParseError:
+        return None
+    g = CG.run_pipeline({"s.xsd": xsd}, **a.get("config", {}))
+    try:
+        if g.error is not None:
+            return f"generation failed: {type(g.error).__name__}: {g.error}"
+        ctx = XmlContext()
+        parser = XmlParser(context=ctx, config=ParserConfig(fail_on_unknown_properties=True, fail_on_unknown_attributes=True, fail_on_converter_warnings=True))
+        for i, words in enumerate(a["words"]):
+            R = g.classes()[f"R{i}"]
+            for w in words:
+                doc = G.word_doc(w, types=types, root=f"r{i}")
+                if not schema.validate(etree.fromstring(doc.encode())):
+                    continue
+                try:
+                    obj = parser.from_string(doc, R)
+                except Exception as e:  # noqa: BLE001
+                    return f"schema-valid document {doc} rejected (group reference #{i} with occurs {refs[i]}): {type(e).__name__}: {e}"
+                out = XmlSerializer(context=ctx).render(obj)
+                got = [(etree.QName(c).localname, c.text) for c in etree.fromstring(out.encode())]
+                if sorted(got) != sorted(zip(w, G.word_values(w, types))):
+                    return f"document {doc} re-serialised with other content (group reference #{i}): {out}"
+    finally:
+        g.close()
+    return None
+
+
+def gen_groups(rng, tier):
+    occs = [(1, 1), (0, 1), (0, G.MAXSIZE), (1, G.MAXSIZE), (2, 3), (0, 2)]
+    hand = {"seq": [1, 1, [{"elem": ["a", 1, 1]}, {"elem": ["b", 0, 1]}]]}
+    yield {"group": hand, "refs": [(1, 1), (0, G.MAXSIZE)], "words": [[["a", "b"], ["a"]], [[], ["a", "a", "b", "a"], ["a", "b"]]], "types": None}
+    yield {"group": hand, "refs": [(0, G.MAXSIZE), (1, 1)], "words": [[[], ["a", "a", "b", "a"]], [["a", "b"], ["a"]]], "types": None}
+    for _ in range(n_cases(tier, 40, 1500)):
+        q = G.gen_particle(rng, distinct=["a", "b", "c", "d", "e", "f"])
+        if q is None or "elem" in q:
+            continue
+        kind = "seq" if "seq" in q else "choice"
+        q = {kind: [1, 1, q[kind][2]]}
+        refs = [rng.choice(occs) for _ in range(rng.randint(2, 3))]
+        types = G.assign_types(rng, q) if rng.random() < 0.4 else None
+        words = [[G.sample_word(rng, {"seq": [mn, mx, [q]]}) for _ in range(4)] for mn, mx in refs]
+        cfg = {"compound_fields": True} if rng.random() < 0.3 else {}
+        yield {"group": q, "refs": refs, "words": words, "types": types, "config": cfg}
+
+
+def covered_groups(a, msg):
+    return None  # element names are distinct inside the group: the duplicate-site finding cannot apply
+
+
 def covered_docs(a, msg):
     """known finding: an element name with several sites that can occur more than once
     while the generated field is not a list"""
@@ -358,6 +421,7 @@ def adapt_docs(op, a):
 
 ORACLES = [
     Oracle("c02.valid_docs", gen_docs, oracle_docs, covered=covered_docs, from_ops=("gen.xsd_sites", "gen.xsd_occurs"), adapt=adapt_docs),
+    Oracle("c02.group_refs", gen_groups, oracle_groups, covered=covered_groups),
 ]
 
 
